@@ -10,10 +10,10 @@ import (
 // acceptance nor a clean typed rejection with a zero result), and the total number of points.
 // TLC enumerates the same domain itself (spec/mc/Graph_*.tla) and looks every point up.
 type graphOut struct {
-	Domain    string           `json:"domain"`
-	Total     int              `json:"total"`
-	Accepted  []any `json:"accepted"`
-	Anomalies []any `json:"anomalies"`
+	Domain    string `json:"domain"`
+	Total     int    `json:"total"`
+	Accepted  []any  `json:"accepted"`
+	Anomalies []any  `json:"anomalies"`
 }
 
 var graphs = map[string]func(tier string, g *graphOut){}
